@@ -111,12 +111,14 @@ class C10(Prop):
         va, vb = rng.choice(pairs)
         da["T"], db["T"] = va, vb
         if rng.random() < 0.5:
-            items = [rng.choice(pairs) for _ in range(rng.randint(1, 3))]
+            # items that the unordered walk pairs (same str()) although they differ: only the transform makes them equal
+            twins = [(1, "1"), (2, "2"), (1.5, "1.5"), (None, "None"), (True, "True"), ("7", 7)]
+            items = [rng.choice(pairs + twins + twins) for _ in range(rng.randint(1, 4))]
             da["TL"], db["TL"] = [x for x, _ in items], [y for _, y in items]
         fn = rng.choice([["lower"], ["round"], ["lower"], ["round"], ["id"], ["ci", 0], ["cs", "ab"]])
         tr = [[rng.choice(["//T", "//t", "/" + "/".join(str(s) for s in p if isinstance(s, str) and False) + "T", "T"]), fn]]
         if "TL" in da:
-            tr.append([rng.choice(["//TL", "//tl", "TL"]), rng.choice([["lower"], ["round"], ["cs", "ab"]])])
+            tr.append([rng.choice(["//TL", "//tl", "TL"]), rng.choice([["lower"], ["round"], ["cs", "ab"], ["ci", 0], ["cs", "ab"]])])
         if rng.random() < 0.3:
             tr.reverse()
         return a, b, tr
